@@ -31,6 +31,38 @@ class Unsupported(Exception):
     pass
 
 
+_sg_cache = {}
+
+
+def strip_generics(path):
+    """remove every balanced ::<...> turbofish segment from a MIR path"""
+    r = _sg_cache.get(path)
+    if r is not None:
+        return r
+    out = []
+    i, n = 0, len(path)
+    while i < n:
+        if path.startswith('::<', i):
+            depth = 0
+            j = i + 2
+            while j < n:
+                c = path[j]
+                if c == '<':
+                    depth += 1
+                elif c == '>' and path[j - 1] not in '-=':
+                    depth -= 1
+                    if depth == 0:
+                        break
+                j += 1
+            i = j + 1
+            continue
+        out.append(path[i])
+        i += 1
+    r = ''.join(out)
+    _sg_cache[path] = r
+    return r
+
+
 class PathEnd(Exception):
     """path ended: kind in {'panic','bound','infeasible','unsupported'}"""
     def __init__(self, kind, msg='', span=''):
@@ -359,7 +391,7 @@ class Engine:
         return e[1].index(v.variant)
 
     def resolve(self, callee):
-        c = re.sub(r'::<[^()]*?>(?=::|$)', '', callee)      # drop turbofish (approx.)
+        c = callee if callee.startswith('<') else strip_generics(callee)
         if c in self.funcs:
             return c
         short = c.split('::')
@@ -714,6 +746,17 @@ class Engine:
             return Opaque(t)
         if s == '()':
             return Struct('()', [])
+        mi = re.fullmatch(r'(?:core::num::<impl )?(u8|u16|u32|u64|usize|u128|i8|i16|i32|i64|isize|i128)>?::(MIN|MAX|BITS)', s)
+        if mi:
+            w, sg = INT_TYPES[mi.group(1)]
+            if mi.group(2) == 'BITS':
+                return mkint(w, 'u32')
+            if mi.group(2) == 'MAX':
+                return mkint((1 << (w - 1)) - 1 if sg else (1 << w) - 1, mi.group(1))
+            return mkint(-(1 << (w - 1)) if sg else 0, mi.group(1))
+        mz = re.fullmatch(r'([\w:]+) \{\{\s*\}\}', s)
+        if mz:
+            return Struct(mz.group(1).split('::')[-1], [])
         for k in (s, s.split('::')[-1]):
             if k in mirparse.CONSTS:
                 return self.const(mirparse.CONSTS[k][0])
@@ -810,7 +853,7 @@ class Engine:
     def adt(self, f, fr, r, ty):
         path, ops, names = r[1], r[3], r[4]
         vals = [self.operand(f, fr, a) for a in ops]
-        p = re.sub(r'::<[^()]*?>(?=::|$)', '', path)
+        p = strip_generics(path)
         p = re.sub(r'<.*>', '', p)
         comps = p.split('::')
         if names is not None:
@@ -1077,8 +1120,45 @@ class Engine:
                 self.models_used.add(fn.__name__.lstrip('_') + ':' + m.re.pattern[:60])
                 return r
         if fnname is None:
+            dm = re.match(r"^<dyn (\w+)(<.*?>)?( \+ .*)? as (\w+)(<.*>)?>::(\w+)$", callee)
+            if dm and args:
+                return self.dyn_call(dm.group(4), dm.group(6), args, fr, dty)
             raise Unsupported('no MIR body or model for ' + callee)
         return self.run(self.funcs[fnname], args)
+
+    def type_name_of(self, v, fr=None):
+        v = self.deref(v, fr)
+        while isinstance(v, Cell):
+            v = v.v
+            v = self.deref(v, fr)
+        if isinstance(v, Struct):
+            return v.ty
+        if isinstance(v, Opaque):
+            return re.sub(r'<.*>', '', v.what).split('::')[-1]
+        if isinstance(v, Enum):
+            return v.ty.split('::')[-1]
+        return None
+
+    def dyn_call(self, trait, method, args, fr, dty):
+        tn = self.type_name_of(args[0], fr)
+        if tn is None:
+            hook = self.env.get('dyn_call')
+            if hook is not None:
+                return hook(self, trait, method, args, fr)
+            raise Unsupported('dynamic dispatch on %r' % (args[0],))
+        key = '<%s as %s>::%s' % (tn, trait, method)
+        name = self.alias.get(key)
+        if name is None:
+            hook = self.env.get('dyn_call')
+            if hook is not None:
+                return hook(self, trait, method, args, fr)
+            raise Unsupported('no impl found for ' + key)
+        # the receiver is &dyn Trait: pass a reference to the concrete value
+        recv = args[0]
+        v = self.deref(recv, fr)
+        if isinstance(v, Cell):
+            recv = Ref(v)
+        return self.run(self.funcs[name], [recv] + list(args[1:]))
 
     def call_value(self, fv, args, fr=None, dty=None):
         """call a closure / fn item / fn pointer value with already evaluated args"""
